@@ -207,7 +207,9 @@ def expand_names(fn_node, stmt, expr, depth=3, chains=None):
             if isinstance(n.ctx, ast.Load) and n.id not in params and depth > 0:
                 v = nearest_def(fn_node, stmt, n.id, chains)
                 if v is not None and isinstance(v, (ast.Subscript, ast.Attribute, ast.Name, ast.Call, ast.BinOp, ast.Compare, ast.BoolOp)):
-                    return expand_names(fn_node, stmt, _copy.deepcopy(v), depth - 1, chains)
+                    from .canon import _pure
+                    if _pure(v, False):
+                        return expand_names(fn_node, stmt, _copy.deepcopy(v), depth - 1, chains)
             return n
     return R().visit(_copy.deepcopy(expr))
 
